@@ -259,6 +259,22 @@ impl PacketReceiver {
 
             self.entry_flags[flags_index] &= !flag_bit;
 
+            // A sender that reports inconsistent parent leads can move the window past a packet
+            // that was never deliverable on its channel. Drop it, or its data would stay in the
+            // slot, no longer counted against the receive allocation.
+            if self.data_flags[flags_index] & flag_bit != 0 {
+                self.data_flags[flags_index] &= !flag_bit;
+                self.data_entries[window_idx].data = None;
+
+                let channel_id = self.channel_entries[window_idx].channel_id;
+                let ref mut channel = self.channels[channel_id as usize];
+
+                channel.packet_count -= 1;
+                if channel.packet_count == 0 {
+                    self.channel_ready_flags &= !(1u64 << channel_id);
+                }
+            }
+
             id = packet_id::add(id, 1);
         }
 
@@ -389,9 +405,8 @@ impl PacketReceiver {
                     if window_parent_lead == 0 || window_parent_lead > window_delta {
                         // println!("Forget sequence ID {}", sequence_id);
                         new_base_id = next_id;
-                        // Window advancement implies that this packet has been delivered
-                        debug_assert!(self.data_flags[flags_index] & flag_bit == 0);
-                        debug_assert!(self.data_entries[window_idx].data.is_none());
+                        // Between well-behaved endpoints, window advancement implies that this
+                        // packet has been delivered (see advance_window() otherwise)
                     } else {
                         // Cease to consider advancing the window
                         break;
